@@ -36,6 +36,19 @@ class Canon:
                     elif n.value.id == init.params[2]:
                         self.map_attr = n.targets[0].attr
         self._memo = {}
+        self._smemo = {}          # id(term) -> (term, text): _show is called on DAG-shaped terms
+        self._self_hits = 0
+
+    @property
+    def written(self):
+        return self.__dict__.get("_written")
+
+    @written.setter
+    def written(self, v):
+        # read-through of unwritten copies depends on it: drop everything derived
+        self.__dict__["_written"] = v
+        self._memo.clear()
+        self._smemo.clear()
 
     # ------------------------------------------------------------------ norm
     def norm(self, t):
@@ -221,7 +234,34 @@ class Canon:
     def _show(self, t, ln):
         if not isinstance(t, tuple) or not t:
             return repr(t)
-        if t in self.names:
+        m = self._smemo.get(id(t))
+        if m is not None and m[0] is t:
+            return m[1]
+        busy = self.__dict__.get("_showing")
+        ckey = None
+        if busy:
+            # inside the rendering of a container: the text may contain `@self` placeholders for
+            # the enclosing containers, so it is only reusable for the same set of them
+            ckey = (id(t), tuple(sorted(busy)))
+            m = self._smemo.get(ckey)
+            if m is not None and m[0] is t:
+                self._emitted.extend(m[2])
+                return m[1]
+        em = self.__dict__.setdefault("_emitted", [])
+        start = len(em)
+        entry_busy = set(busy) if busy else ()
+        r = self._show1(t, ln)
+        dep = [i for i in em[start:] if i in entry_busy]
+        if not dep:                      # placeholders (if any) refer to containers inside t only
+            self._smemo[id(t)] = (t, r)
+            if not entry_busy:
+                del em[start:]
+        elif ckey is not None:
+            self._smemo[ckey] = (t, r, tuple(em[start:]))
+        return r
+
+    def _show1(self, t, ln):
+        if self.names and t in self.names:
             return self.names[t]
         k = t[0]
         s = lambda x: self._show(x, ln)
@@ -319,6 +359,7 @@ class Canon:
             h = self.ip.heap.get(t[1], {})
             busy = self.__dict__.setdefault("_showing", set())
             if t[1] in busy:          # a condition / element that mentions the container itself
+                self.__dict__.setdefault("_emitted", []).append(t[1])
                 return "{@self}"
             busy.add(t[1])
             try:
@@ -337,6 +378,7 @@ class Canon:
             h = self.ip.heap.get(t[1], {})
             busy = self.__dict__.setdefault("_showing", set())
             if t[1] in busy:
+                self.__dict__.setdefault("_emitted", []).append(t[1])
                 return "[@self]"
             busy.add(t[1])
             try:
